@@ -48,7 +48,7 @@ var shadowNames = []string{"min", "max", "any", "all", "int", "repr", "hash", "r
 func (g *gen) scenario() {
 	g.topCost += 60
 	F, G := g.freshF, g.freshG
-	switch g.r.Intn(26) {
+	switch g.r.Intn(29) {
 	case 0: // closure over a local and a parameter
 		g.tag("closure")
 		f, v, w := F(), G(), G()
@@ -385,6 +385,8 @@ def %[1]s(n):
 		out += [trace(n)]
 	return out
 trace(%[1]s(%[4]d))`, f, g.r.Intn(2), g.r.Intn(3), 3+g.r.Intn(5)))
+	case 25, 26, 27: // mutation of a container that is being iterated or is frozen
+		g.lockedMutation()
 	default: // keyword-only parameters and evaluation order of arguments
 		g.tag("kwonly")
 		g.tag("call-named")
@@ -598,6 +600,72 @@ func (g *gen) takeShadowName() string {
 		}
 	}
 	return ""
+}
+
+// lockedMutation: an in-place or mutating operation applied to a container that may
+// not be mutated at that moment -- it is being iterated by an enclosing for loop or
+// comprehension, or it is frozen (loaded from another module) -- with operands that
+// are often degenerate (empty right operand, storing back the same element).  The
+// operation must fail whatever the operand is.
+func (g *gen) lockedMutation() {
+	g.tag("locked-mutation")
+	f, h := g.freshF(), g.freshF()
+	isDict := g.chance(50)
+	var ops, operands []string
+	cont := "[1, 2, 3]"
+	if isDict {
+		cont = `{"k": 1, "j": 2}`
+		ops = []string{"c |= e", "c |= e", "c[\"k\"] = c[\"k\"]", "c[\"k\"] += 0", "c |= c", "c[\"new\"] = e"}
+		operands = []string{"{}", "{}", `{"z": 1}`, `{"k": 1}`}
+	} else {
+		ops = []string{"c += e", "c += e", "c.extend(e)", "c.extend(e)", "c[0] = c[0]", "c[0] += 0", "c.append(e)", "c.pop()", "c += c[0:0]", "c[-1] = e"}
+		operands = []string{"[]", "[]", "()", "[7]", "c[1:1]"}
+	}
+	op := hx.Pick(g.r, ops)
+	operand := hx.Pick(g.r, operands)
+	if operand == "c[1:1]" {
+		operand = "[]"
+	}
+	pre := ""
+	if g.chance(50) {
+		pre = "\ttrace(\"before\", len(c))\n"
+	}
+	switch g.r.Intn(3) {
+	case 0: // being iterated by an enclosing for loop
+		g.tag("mutate-during-iteration")
+		g.lines(fmt.Sprintf(`
+def %[1]s(c, e):
+	n = 0
+	for k in c:
+		%[2]s
+		n += 1
+	return (n, c)
+trace(%[1]s(%[3]s, %[4]s))`, f, op, cont, operand))
+	case 1: // being iterated by an enclosing comprehension
+		g.tag("mutate-during-iteration")
+		g.tag("comprehension")
+		g.lines(fmt.Sprintf(`
+def %[5]s(c, e):
+	%[2]s
+	return len(c)
+def %[1]s(c, e):
+	return [%[5]s(c, e) for k in c]
+trace(%[1]s(%[3]s, %[4]s))`, f, op, cont, operand, h))
+	default: // frozen: exported by another module
+		g.tag("mutate-frozen")
+		g.tag("load")
+		v := g.freshG()
+		name := "fl"
+		if isDict {
+			name = "fd"
+		}
+		g.lines(fmt.Sprintf(`
+load("m.star", %[5]s="%[6]s")
+def %[1]s(c, e):
+%[7]s	%[2]s
+	return c
+trace(%[1]s(%[5]s, %[4]s))`, f, op, cont, operand, v, name, pre))
+	}
 }
 
 func (g *gen) loadScen() {
